@@ -24,6 +24,7 @@ import (
 
 	"com.tuntun.rangers/node/src/common"
 	crypto "com.tuntun.rangers/node/src/eth_crypto"
+	"com.tuntun.rangers/node/src/executor"
 	"com.tuntun.rangers/node/src/vm"
 	"github.com/holiman/uint256"
 	"verif/harness/hx"
@@ -268,7 +269,11 @@ func (g *gen) progSequence() ([]byte, []byte, []byte) {
 		}
 	}
 	if depth > 0 {
-		a.storeTopAndReturn()
+		if r.Chance(1, 5) { // end by REVERT with the top of the stack as data
+			a.pushU(0).op(0x52).pushU(uint64(r.Intn(40))).pushU(0).op(0xfd)
+		} else {
+			a.storeTopAndReturn()
+		}
 	}
 	return a.bytes(), r.Bytes(r.Intn(40)), g.auxProg()
 }
@@ -897,6 +902,83 @@ func rawProbe(line string) (string, string) {
 	return opLine, status
 }
 
+// inputs for the precompiles whose Run body is modelled (0x01, 0x04, 0x05, 0x09)
+func (g *gen) prunInput(addr int) []byte {
+	r := g.r
+	switch addr {
+	case 1:
+		in := make([]byte, 128)
+		copy(in[0:32], r.Bytes(32))
+		in[63] = byte(27 + r.Intn(2))
+		copy(in[64:96], r.Bytes(32))
+		copy(in[96:128], r.Bytes(32))
+		switch r.Intn(12) {
+		case 0:
+			in[63] = byte(r.Intn(256)) // v out of range / wrapping
+		case 1:
+			in[32+r.Intn(31)] = 1 // non-zero padding of v
+		case 2:
+			for i := 64; i < 96; i++ { // r = 0
+				in[i] = 0
+			}
+		case 3:
+			for i := 96; i < 128; i++ { // s >= N
+				in[i] = 0xff
+			}
+		case 4:
+			in = in[:r.Intn(128)] // truncated (right-padded by Run)
+		case 5:
+			in = append(in, r.Bytes(1+r.Intn(40))...) // trailing bytes ignored
+		case 6:
+			in[64] = 0 // leading zero byte in r
+		case 7: // a real signature
+			key := r.Bytes(32)
+			if prv, err := crypto.ToECDSA(key); err == nil {
+				if sig, err := crypto.Sign(in[0:32], prv); err == nil {
+					copy(in[64:128], sig[0:64])
+					in[63] = 27 + sig[64]
+				}
+			}
+		}
+		return in
+	case 4:
+		return r.Bytes(r.Intn(100))
+	case 5:
+		b, e, m := r.Intn(40), r.Intn(40), r.Intn(40)
+		if r.Chance(1, 6) {
+			b, e, m = r.Pick(0, 1, 32, 33, 64, 65, 200), r.Pick(0, 1, 31, 32, 33, 100), r.Pick(0, 1, 32, 64, 65, 300)
+		}
+		in := make([]byte, 96)
+		in[31], in[63], in[95] = byte(b), byte(e), byte(m)
+		in[30], in[62], in[94] = byte(b>>8), byte(e>>8), byte(m>>8)
+		payload := r.Bytes(r.Intn(b + e + m + 8))
+		if r.Chance(1, 8) { // modulus zero
+			payload = make([]byte, b+e+m)
+			copy(payload, r.Bytes(b+e))
+		}
+		if r.Chance(1, 10) {
+			in[r.Intn(24)] = byte(r.Intn(3)) // garbage in the high bytes of a length word
+		}
+		return append(in, payload...)
+	default: // 9
+		in := r.Bytes(213)
+		in[0], in[1] = 0, 0
+		in[2] = byte(r.Intn(4))
+		in[212] = byte(r.Intn(2))
+		switch r.Intn(10) {
+		case 0:
+			in[212] = byte(2 + r.Intn(250))
+		case 1:
+			in = in[:212]
+		case 2:
+			in = append(in, 0)
+		case 3:
+			in[2], in[3] = 0, byte(r.Intn(13))
+		}
+		return in
+	}
+}
+
 // length words for the modexp header
 func lenWord(r *hx.Rng) *big.Int {
 	switch r.Intn(16) {
@@ -963,8 +1045,15 @@ func (g *gen) precompileInput(addr int) []byte {
 				}
 			}
 		}
+		// one word from the boundary lattice at a time (two with probability 1/4): three at once
+		// nearly always saturate the price at MaxUint64 and hide the arithmetic in between
+		special := r.Intn(3)
+		both := r.Chance(1, 4)
 		for w := 0; w < 3; w++ {
-			v := lenWord(r)
+			v := big.NewInt(int64(r.Intn(40)))
+			if w == special || (both && w == (special+1)%3) {
+				v = lenWord(r)
+			}
 			bs := v.Bytes()
 			for i := 0; i < 32; i++ {
 				in[w*32+i] = 0
@@ -1034,6 +1123,126 @@ func aritySpec(ctx string, cfg int, tiny []byte) spec {
 		a.op(0x36).pushU(0).pushU(0).op(0xf0).op(0x5a)
 		a.storeTopAndReturn()
 		return spec{kind: "C", cfg: cfg, gas: 3000000, value: zero, code: a.bytes(), input: tiny, to: target}
+	}
+}
+
+// ---- deterministic jump families
+
+// code of exactly n bytes: PUSH2 dest, JUMP (or PUSH1 1, PUSH2 dest, JUMPI), padding of JUMPDEST-free bytes,
+// last byte JUMPDEST: destinations n-1 (valid), n (one past the end), n+1, and far ones
+func jumpEdgeProg(n int, dest *big.Int, jumpi bool) []byte {
+	a := &asm{}
+	if jumpi {
+		a.pushU(1)
+	}
+	bs := dest.Bytes()
+	if len(bs) < 2 {
+		bs = append(make([]byte, 2-len(bs)), bs...)
+	}
+	if len(bs) > 32 {
+		bs = bs[len(bs)-32:]
+	}
+	a.op(byte(0x5f + len(bs))).op(bs...)
+	if jumpi {
+		a.op(0x57)
+	} else {
+		a.op(0x56)
+	}
+	for len(a.b) < n-1 {
+		a.op(0x01)
+	}
+	a.op(0x5b)
+	return a.bytes()
+}
+
+// pairs (A, B) of different programs that both jump, for the JUMPDEST-analysis cache shared across frames:
+// A jumps (its analysis gets cached), then starts B through `kind`, then jumps again.
+func jumpCacheA(kind byte, to common.Address, variant int) []byte {
+	a := &asm{}
+	a.pushU(4).op(0x56).op(0xfe).op(0x5b) // 0: PUSH1 4 JUMP INVALID JUMPDEST(4)
+	if kind == 0xf0 {
+		// CREATE with B (call data) as init code
+		a.op(0x36).pushU(0).pushU(0).op(0x37).op(0x36).pushU(0).pushU(0).op(0xf0).op(0x50)
+	} else {
+		a.pushU(0).pushU(0).pushU(0).pushU(0)
+		if kind == 0xf1 || kind == 0xf2 {
+			a.pushU(0)
+		}
+		a.pushB(to.Bytes()).op(0x5a).op(kind).op(0x50)
+	}
+	// second jump of A over a PUSH whose data byte is 0x5b
+	here := len(a.b)
+	a.pushU(uint64(here + 6)).op(0x56) // PUSH1 x JUMP  (3 bytes)
+	a.op(0x60, 0x5b)                   // PUSH1 0x5b    (data byte is a JUMPDEST byte)
+	a.op(0xfe)
+	a.op(0x5b) // here+6
+	if variant == 1 {
+		a.pushU(uint64(here + 4)).op(0x56) // jump INTO the push data: must fail
+	}
+	a.op(0x5a)
+	a.storeTopAndReturn()
+	return a.bytes()
+}
+
+func jumpCacheB(variant int) []byte {
+	a := &asm{}
+	switch variant {
+	case 0: // longer than A, valid jump to its far end (beyond A's bitmap)
+		a.pushU(200).op(0x56)
+		for len(a.b) < 200 {
+			a.op(0x60, 0x5b)
+		}
+		a.op(0x5b).op(0x00)
+	case 1: // jump into PUSH data at a position that is a real JUMPDEST in A (position 4)
+		a.pushU(4).op(0x56).op(0x60, 0x5b).op(0x00) // 0:PUSH1 4, 2:JUMP, 3:PUSH1, 4:0x5b(data)
+	case 2: // valid JUMPDEST at a position that is PUSH data in a same-length other program
+		a.pushU(3).op(0x56).op(0x5b).op(0x60, 0x5b).op(0x00)
+	default: // very short: valid jump at 3
+		a.pushU(3).op(0x56).op(0x5b)
+	}
+	return a.bytes()
+}
+
+func jumpFamilies(all bool, seed uint64, visit func(name string, s spec)) {
+	zero := big.NewInt(0)
+	cfgs := []int{arityCfg(int(seed % 8))}
+	if all {
+		cfgs = []int{arityCfg(0), arityCfg(1), arityCfg(3), arityCfg(7)}
+	}
+	for _, cfg := range cfgs {
+		// boundary destinations in every context
+		for _, n := range []int{6, 33, 34, 70} {
+			dests := []*big.Int{big.NewInt(int64(n - 1)), big.NewInt(int64(n)), big.NewInt(int64(n + 1)), big.NewInt(int64(n - 2)), big.NewInt(0),
+				new(big.Int).SetUint64(1 << 32), new(big.Int).SetUint64(1<<63 - 1), new(big.Int).SetUint64(1 << 63), new(big.Int).SetUint64(^uint64(0)),
+				pow2(64), new(big.Int).Add(pow2(64), big.NewInt(int64(n-1))), pow2(255), new(big.Int).Sub(pow2(256), big.NewInt(1))}
+			for _, d := range dests {
+				for _, ji := range []bool{false, true} {
+					tiny := jumpEdgeProg(n, d, ji)
+					for _, ctx := range []string{"top", "static-entry", "staticcall-2", "delegatecall", "callcode", "create-top", "create-op"} {
+						visit("jump-edge", aritySpec(ctx, cfg, tiny))
+					}
+				}
+			}
+		}
+		// the analysis cache across frames
+		for _, kind := range []byte{0xf1, 0xf2, 0xf4, 0xfa, 0xf0} {
+			for va := 0; va < 2; va++ {
+				for vb := 0; vb < 4; vb++ {
+					b := jumpCacheB(vb)
+					sp := spec{kind: "C", cfg: cfg, gas: 3000000, value: zero, code: jumpCacheA(kind, auxAddr, va), aux: b, to: target}
+					if kind == 0xf0 {
+						sp.aux = nil
+						sp.input = b
+					}
+					visit("jump-cache", sp)
+					// and the other way round: B's frame first (outermost), calling A
+					if kind != 0xf0 {
+						sp2 := spec{kind: "C", cfg: cfg, gas: 3000000, value: zero, code: jumpCacheA(kind, aux2Addr, va), aux: nil, aux2: b, to: target}
+						visit("jump-cache", sp2)
+					}
+				}
+			}
+		}
 	}
 }
 
@@ -1228,6 +1437,10 @@ func main() {
 			doSpec(out, s, stats)
 			genKinds["arity-"+ctx]++
 		})
+		jumpFamilies(hx.ArgInt(a, "arity", 1) > 1, hx.SeedFromEnv(), func(name string, s spec) {
+			doSpec(out, s, stats)
+			genKinds[name]++
+		})
 	}
 	n := hx.ArgInt(a, "n", 1500)
 	var kept []spec
@@ -1237,6 +1450,9 @@ func main() {
 		value := big.NewInt(0)
 		if r.Chance(1, 8) {
 			value = big.NewInt(int64(r.Intn(1000)))
+		}
+		if r.Chance(1, 60) { // more than the origin owns: ErrInsufficientBalance before anything runs
+			value = new(big.Int).Exp(big.NewInt(10), big.NewInt(21), nil)
 		}
 		var code, input, aux, aux2 []byte
 		kind := ""
@@ -1313,6 +1529,11 @@ func main() {
 			genKinds["top-precompile"]++
 			to = precompileAddr(1 + r.Intn(18))
 			input = g.precompileInput(int(to[19]))
+			if gas > 10000000 {
+				// hypothesis "gas limit < 2^44": a correctly priced MODEXP at 2^63 gas may ask Go for 2^62 bytes
+				// (known finding modexp-operand-alloc-panics-above-1e18-gas, probed once by the searcher)
+				gas = 10000000
+			}
 		}
 		sp := spec{kind: "C", cfg: cfg, gas: gas, value: value, code: code, input: input, aux: aux, aux2: aux2, to: to, nonce: nonce}
 		doSpec(out, sp, stats)
@@ -1366,6 +1587,49 @@ func main() {
 				}
 			}
 			return strconv.FormatUint(gas, 10) + " " + cls
+		})
+	}
+	// bodies of the modelled precompiles: the real Run against the Lean definition
+	nrun := hx.ArgInt(a, "prun", 800)
+	for i := 0; i < nrun; i++ {
+		addr := []int{1, 1, 4, 5, 5, 9, 9}[r.Intn(7)]
+		in := g.prunInput(addr)
+		p := rawPrecompiles[precompileAddr(addr)]
+		op := fmt.Sprintf("prun %d %s", addr, hexTok(in))
+		out.Do(op, func() string {
+			if p.RequiredGas(in) > 3000000 {
+				return "unmodelled"
+			}
+			o, err := p.Run(in)
+			if err != nil {
+				return "err"
+			}
+			return "ok " + hexTok(o)
+		})
+	}
+	// executor.IntrinsicGas against the model
+	nig := hx.ArgInt(a, "igas", 300)
+	for i := 0; i < nig; i++ {
+		p26 := r.Bool()
+		if p26 {
+			setConfig(63)
+		} else {
+			setConfig(1 | 2 | 8 | 32)
+		}
+		creation := r.Bool()
+		data := r.Bytes(r.Pick(0, 1, 2, 31, 32, 33, 100, 1000) + r.Intn(3))
+		for j := range data {
+			if r.Chance(1, 2) {
+				data[j] = 0
+			}
+		}
+		op := fmt.Sprintf("igas %s %s %s", b01(p26), b01(creation), hexTok(data))
+		out.Do(op, func() string {
+			g, err := executor.IntrinsicGas(data, creation)
+			if err != nil {
+				return "overflow"
+			}
+			return "ok " + strconv.FormatUint(g, 10)
 		})
 	}
 	kinds := []string{}
